@@ -84,4 +84,31 @@ CLAIMED["C19"] = {
 }
 ENGINES[0]["serves_properties"] = ["C01", "C02", "C03", "C04", "C05", "C09", "C10", "C17", "C19"]
 ENGINES[2]["serves_properties"] = ["C01", "C02", "C10", "C19"]
+CLAIMED["C06"] = {
+    "engine": "seqspace",
+    "technique": "exhaustive enumeration of Pauli words x coefficient/control alphabets and of ordered 1-3-term operators x time/order/step/control options; oracle = exact matrix exponentials and rigorous commutator bounds",
+    "text": "(a) all 63 non-identity Pauli words on 3 qubits x 7 coefficients (both signs, beyond 2pi, tiny, zero) x 7 control choices: the gate list's unitary equals (controlled-)exp(-i c P) including phase; (b) ordered 1-3-term operators over the 16 two-qubit words and a 10-word three-qubit alphabet x scalar / per-term times x Trotter orders 1,2 (4,6 with a composite rigorous bound and a convergence-ratio check) x 1-3 steps x 7 control shapes for trotterize and get_exponentiated_qubit_operator_circuit: exact for commuting term sets, within the Childs et al. first/second-order commutator bound for the ordered term list otherwise; (c) 31 Hermitian fermionic generators and pairs under JW/BK/scBK/JKMN x both orderings; (d) TrotterSuzukiUnitary.build_circuit with steps, controls and methods.",
+    "note": "Trusted: mc/ref/trotter.py (self-test: bound >= true error of the exact product formula on > 1000 ordered operators; order-2 convention pinned). Not covered: > 6 qubits, values outside the alphabets, full cross product of coefficients for 3-term operators.",
+}
+CLAIMED["C07"] = {
+    "engine": "stategraph",
+    "technique": "explicit-state BFS per ansatz instance: transitions update_var_params(v) / build_circuit(v) / add_operator over a parameter-vector alphabet (K=6/9, depth 2/3); in every state the circuit's reference statevector is compared with a fresh build",
+    "text": "One state graph per (ansatz class, molecule, encoding, ordering, options) - 118 graphs quick, 250 thorough covering UCCSD closed/open/UHF, UCC1/UCC3, UpCCGSD k=1..4, UCCGD, HEA, QMF, QCC, ILC, VSQS (orders 1,2, with/without navigator), pUCCD, ADAPT (add_operator as a transition) and user circuits. From the state after build_circuit(v0), every sequence of updates / rebuilds over a vector alphabet with exact zeros, one-hot, sign changes, repeated values and values beyond 2pi is explored breadth-first with canonical-state dedup; in every state the numpy statevector of ansatz.circuit must equal (up to phase) that of a fresh object built with the last vector; lengths n-1, n+1, 0 must be rejected by all three entry points; the zero vector must give the reference state for the excitation-based ansaetze.",
+    "note": "Both sides of the comparison are Tangelo-built circuits (only the simulator is independent): the check decides history-independence, not the correctness of the parameter-to-gate assignment of a fresh build. Not covered: > 8 qubits, user-supplied generator lists.",
+}
+CLAIMED["C14"] = {
+    "engine": "seqspace",
+    "technique": "exhaustive catalogue product for tapering (dense spectra), exhaustive per-qubit pattern assignment x all Pauli words for trimming, exhaustive subsets of Pauli sets x epsilons for truncation",
+    "text": "(a) 228 (thorough 330) tapering cases: molecules x JW/BK/JKMN x orderings x spins; every eigenvalue of the tapered operator occurs in the original spectrum, the qubit count drops by the number of symmetries, and the (N,S_z)-sector minimum computed from the fermionic Hamiltonian in the occupation basis is retained; also with N/S_z penalties added. (b) every assignment of 15 (25) single-qubit gate patterns to 3 qubits, entangled pairs, fixed widths x all 64 Pauli words and 20 multi-term operators: expectation value before == after trim_trivial_qubits (and trim_trivial_operator with unsorted dictionaries). (c) every subset of commuting and mixed Pauli sets on 1-4 qubits x coefficient and epsilon alphabets: Weyl bound |shift| <= epsilon.",
+    "note": "Trusted: numpy eigensolver, mc/ref/fermion.py, mc/ref/statevec.py. Not covered: > 12 spin-orbitals, non-Z-type symmetries, angles within 1e-5 of odd multiples of pi.",
+}
+CLAIMED["C18"] = {
+    "engine": "seqspace+choicetree",
+    "technique": "exhaustive enumeration of small operators x every shuffle sequence of the grouping heuristic (scripted RandomState), and of all small histograms x operations against Counter arithmetic; resampling through the scripted sampler with every draw sequence",
+    "text": "Grouping: all 1940 operators of 1-4 distinct two-qubit words and ~300 three-qubit operators x coefficient alphabet x seeds x n_repeat, with the heuristic's shuffle scripted so that EVERY permutation sequence is explored (509k executions quick): groups partition the terms with coefficients, each term diagonal in its group's basis, compatible-basis map exact, expectation assembled from exact per-basis histograms equals the term-by-term value. Histograms: 22632 count histograms and 370 dyadic tables under +, +=, aggregate, remove_qubit_indices, post_select, msq_first, the four post-selection functions, with exact conservation of counts / normalisation and marginalisation invariance of term expectation values; resample / get_resampled_frequencies: the law over all scripted draw sequences equals the multinomial law of the frequencies. Un-owned random draws raise (exit 2).",
+    "note": "Trusted: mc/ref/hist.py Counter arithmetic and mc/ref/statevec.py. Not covered: operators with > 4 words / > 3 qubits, resampling with n > 3, chunked sampling path.",
+}
+ENGINES[0]["serves_properties"] = ["C01", "C02", "C03", "C04", "C05", "C06", "C09", "C10", "C14", "C17", "C18", "C19"]
+ENGINES[1]["serves_properties"] = ["C07", "C11", "C16"]
+ENGINES[2]["serves_properties"] = ["C01", "C02", "C10", "C18", "C19"]
 NOT_CLAIMED = {}
